@@ -459,6 +459,16 @@ def _run_alg(cfg, data, cap, with_cb, tl, D):
             dec = D.tensor_ring_als(data, rank, **kw)
         out["decomp"] = ("tr", [np.array(c) for c in dec])
         out["errs"] = None
+    elif alg == "robust_pca":
+        mask = None
+        if cfg.get("mask"):
+            mask = (_rng(seed + 99).random_sample(data.shape) > 0.2).astype(float)
+        Dl, E, errs = D.robust_pca(data, mask=mask, tol=_tol(cfg) if cfg.get("tol") != "tiny" else 1e-300, reg_E=cfg.get("reg_E", 1.0),
+                                   reg_J=cfg.get("reg_J", 1.0), n_iter_max=cap, return_errors=True, verbose=0,
+                                   learning_rate=cfg.get("learning_rate", 1.1))
+        out["decomp"] = ("rpca", np.asarray(Dl), np.asarray(E))
+        nrm = float(np.linalg.norm(data))
+        out["errs"] = [float(e) / nrm for e in errs]
     elif alg == "cmtf":
         X, Y = data
         dec, mat, errs = D.coupled_matrix_tensor_3d_factorization(X, Y, rank, init=cfg["init"], n_iter_max=cap, tol=_tol(cfg),
@@ -498,6 +508,16 @@ def _make_input(cfg):
                 P = np.linalg.qr(rng.standard_normal((n, r)))[0]
                 sl.append(P @ B @ np.diag(A[i]) @ C.T)
             return sl
+        if cfg["data"] == "nn_sparse_noisy":      # sparse non-negative factors + noise: extrapolated iterates cross zero
+            A = rng.random_sample((len(rows), r)) * (rng.random_sample((len(rows), r)) < 0.7) + 0.05
+            B = rng.random_sample((r, r)) + 0.1
+            C = rng.random_sample((J, r)) * (rng.random_sample((J, r)) < 0.5)
+            sl = []
+            for i, n in enumerate(rows):
+                P = np.linalg.qr(rng.standard_normal((n, r)))[0]
+                S = P @ B @ np.diag(A[i]) @ C.T
+                sl.append(S + 0.15 * np.std(S) * rng.standard_normal(S.shape))
+            return sl
         if cfg["data"] == "nonneg":
             return [rng.random_sample((n, J)) + 0.05 for n in rows]
         return [rng.standard_normal((n, J)) for n in rows]
@@ -527,6 +547,8 @@ def dense_of(dec):
         return tucker_dense(dec[1], dec[2])
     if kind == "tr":
         return tr_dense(dec[1])
+    if kind == "rpca":
+        return dec[1] + dec[2]
     raise ValueError(kind)
 
 
@@ -601,6 +623,9 @@ def structure(cfg, data, dec):
         cores = dec[1]
         st["shapes"] = [list(np.shape(c)) for c in cores]
         st["mins"] = mins(cores)
+    elif kind == "rpca":
+        st["shapes"] = [list(np.shape(dec[1])), list(np.shape(dec[2]))]
+        st["mins"] = mins([dec[1], dec[2]])
     elif kind == "cmtf":
         st["shapes"] = [list(np.shape(f)) for f in dec[2]] + [list(np.shape(f)) for f in dec[4]]
         st["wshape"] = list(np.shape(dec[1]))
@@ -949,6 +974,10 @@ def driver_configs(tier, seed, algs=None):
     for j in range(40 if thorough else 12):
         add("parafac2", shape=[4, 0, 5], rows=[6, 6, 6, 6], rank=2, data="generic", init="random", tol="tiny", linesearch=True,
             scale=[1e-2, None][j % 2], caps=[30])
+    # ---- PARAFAC2 with non-negative modes AND line search: accepted jumps are clipped; the recorded error must be that of the kept iterate
+    for j in range(240 if thorough else 80):
+        add("parafac2", shape=[4, 0, 6], rows=[[6, 6, 6, 6], [5, 7, 6, 8]][j % 2], rank=2 + j % 2, data="nn_sparse_noisy", init="random", tol="tiny",
+            linesearch=True, nn_modes=[[0, 2], [0], [2]][j % 3], n_iter_parafac=[2, 5][j % 2], caps=[40])
     # ---- tensor ring with over-parameterised ranks: rank-deficient block least-squares problems
     for shape, rank in (([2, 5, 4], [3, 1, 2, 3]), ([3, 2, 4], [2, 3, 1, 2]), ([2, 3, 2], [3, 2, 3, 3])):
         add("tr_als", shape=shape, rank=rank, data="generic", init="random", tol=str(rng.choice(["zero", "loose"])), callback=True, ls_solve="lstsq")
@@ -1167,3 +1196,16 @@ def objseq_execute(c):
     scale = max(1.0, abs(objs[0])) if objs else 1.0
     ev["objs"] = [qe(o / scale) for o in objs]
     return ev
+
+
+def ext_configs(tier, seed):
+    """X06: algorithms beyond the ones property C06 names (same error-ownership contract)."""
+    rng = _rng(seed + 606)
+    cfgs = []
+    n = 12 if tier == "thorough" else 5
+    for j in range(n):
+        cfgs.append({"alg": "robust_pca", "seed": int(rng.randint(0, 10**6)), "id": "robust_pca-%03d" % j,
+                     "shape": [[4, 5, 3], [5, 4], [3, 4, 2, 3]][j % 3], "rank": 1, "init": "svd",
+                     "data": ["lowrank", "generic", "sparse", "integer"][j % 4], "tol": ["zero", "loose", "tiny"][j % 3],
+                     "reg_E": [1.0, 0.3][j % 2], "reg_J": [1.0, 2.0][(j // 2) % 2], "mask": j % 4 == 3, "caps": [0, 1, 2, 3, 5, 8, 13, 21]})
+    return cfgs
